@@ -133,7 +133,10 @@ def expand(acc, item, tier, seed):
             closed = []
 
         def viol(k, m):
-            acc.violation(k, {"cfg": cfgkey, "state": state, "history": list(rig.log)}, m)
+            case = {"cfg": cfgkey, "state": state, "history": list(rig.log)}
+            if k.startswith("seat"):
+                case["seat_check"] = True        # the violation is about the state after the history, not about its last reply
+            acc.violation(k, case, m)
 
         for k, m in rig.seat(state):
             viol(k, m)
@@ -232,4 +235,5 @@ def replay(case):
                 pass
         if acked and tag is not None and last[0] in ("wt", "wf", "sas") and not rig.on_second:
             msgs += [m for k, m in readback(rig, tag.name, True)]
+    msgs += TS.seat_check(rig, case)
     return msgs
